@@ -17,7 +17,7 @@ from .. import engine, sched, refcsv
 
 PROP = 'C16'
 LEVEL = 'exploration'
-RULE = ('Histories: a pool of 87 scenarios (sharing their table objects) (every query kind of C01-C05, LIKE with many patterns, aggregates, UNNEST, DISTINCT [COUNT], joins, UPDATE, parse errors, runtime '
+RULE = ('Histories: a pool of 90 scenarios (sharing their table objects) (every query kind of C01-C05, LIKE with many patterns, aggregates, UNNEST, DISTINCT [COUNT], joins, UPDATE, parse errors, runtime '
         'errors at record k, IO errors, query_csv, pandas); every ordered pair (quick) and every ordered triple (thorough) run in one interpreter, plus Hypothesis '
         'rule-based state machines over sequences of <= 6 (quick) / <= 12 (thorough) scenarios; invariant after every step: the result (output, header, warnings, error) '
         'equals the result of the same scenario run alone in a FRESH interpreter (one sub-process per scenario). Consecutive rbql-js queries: every ordered pair and a sample of triples (thorough: all) of a 29-scenario JS pool in one node process, each step compared with the scenario run in a fresh node process. Interleavings: two queries of different kinds run in two '
@@ -81,6 +81,8 @@ POOL = [
     S('agg-numbers-int', 'select MEDIAN(a1), MIN(a1), MAX(a1), SUM(a1), AVG(a1)', A=[[3], [1], [2], [10]]), S('agg-numbers-float', 'select MEDIAN(a1), MIN(a1), MAX(a1), SUM(a1), AVG(a1)', A=[[1.5], [2.25], [0.5]]),
     S('agg-strings-int', 'select MEDIAN(a1), MIN(a1), MAX(a1), SUM(a1), AVG(a1)', A=[['10'], ['9'], ['100']]), S('agg-strings-float', 'select MEDIAN(a1), MIN(a1), MAX(a1), SUM(a1), AVG(a1)', A=[['1.5'], ['10'], ['9'], ['2']]),
     S('agg-strings-grouped', 'select a2, MEDIAN(a1), MAX(a1), SUM(a1) group by a2', A=[['10', 'x'], ['9', 'x'], ['100', 'x'], ['7', 'y']]),
+    S('csv-color-12-columns', 'select *, NR', kind='csv-color', A=[['c%d_%d' % (r, c) for c in range(12)] for r in range(3)]), S('csv-color-fails', 'select a1, 1 / (2 - NR)', kind='csv-color', A=[['x', 'y'], ['z', 'w']]),
+    S('csv-color-3-columns', 'select a1, a2, a3', kind='csv-color'),
     # the sqlite front-end over one long-lived connection of the caller: output encodings, succeeding and failing
     S('sqlite-utf8', 'select a.name, a.amount', kind='sqlite'), S('sqlite-latin1', 'select a.name, a.amount', kind='sqlite', enc='latin-1'),
     S('sqlite-latin1-fails', 'select a.name, int(a.amount)', kind='sqlite', enc='latin-1'), S('sqlite-utf8-fails', 'select a.name, int(a.amount)', kind='sqlite'),
@@ -115,6 +117,19 @@ def run_scenario(sc, scratch):
         w = []
         try:
             rbql_sqlite.query_sqlite_to_csv(sc['query'], con, 't', dst, ',', 'quoted', sc.get('enc') or 'utf-8', w)
+            with open(dst, 'rb') as f:
+                out = f.read().hex()
+            return {'out': out, 'header': None, 'warnings': w, 'error': None}
+        except Exception as e:
+            return {'out': None, 'header': None, 'warnings': w, 'error': engine.err_info(e)}
+    if kind == 'csv-color':
+        # colorized output (the --color option) of a table with more columns than there are basic colours
+        src, dst = os.path.join(scratch, 'c16_%d_cin.csv' % os.getpid()), os.path.join(scratch, 'c16_%d_cout.csv' % os.getpid())
+        with open(src, 'wb') as f:
+            f.write(refcsv.write_table(sc['A'], ',', 'quoted').encode())
+        w = []
+        try:
+            rbql.query_csv(sc['query'], src, ',', 'quoted', dst, ',', 'simple', 'utf-8', w, False, None, '', True)
             with open(dst, 'rb') as f:
                 out = f.read().hex()
             return {'out': out, 'header': None, 'warnings': w, 'error': None}
